@@ -3,7 +3,21 @@
    the callback trace of `readXml (renderXml M)` and the canonical dump of the built document.  The C++ harness
    `harness/c04.cpp` answers the rendered XML text with the real trace and dump. -/
 import UtapModel.Model.AModelIO
+import UtapModel.Gen.RateDecompCfg
 open UtapModel.AM
+
+/-- an invariant in prefix notation: `A l r` | `I <0|1> n` | `R <0|1> n` | `Q n body` (Model/RateDecomp.lean) -/
+partial def parseWR : List String → Option (UtapModel.RateDecomp.WR × List String)
+  | "A" :: r => do
+    let (a, r1) ← parseWR r
+    let (b, r2) ← parseWR r1
+    pure (.and a b, r2)
+  | "I" :: s :: n :: r => do pure (.inv (s == "1") (← n.toNat?), r)
+  | "R" :: c :: n :: r => do pure (.rate (c == "1") (← n.toNat?), r)
+  | "Q" :: n :: r => do
+    let (b, r1) ← parseWR r
+    pure (.all b (← n.toNat?), r1)
+  | _ => none
 
 def report (id : String) (M : AModel) : List String :=
   let calls := readXml (renderXml M)
@@ -17,6 +31,12 @@ partial def loop (h out : IO.FS.Stream) (id : String) (ps : PS) : IO Unit := do
   if line.isEmpty then return ()
   let ws := (line.trimAscii.toString.splitOn " ").filter (· ≠ "")
   match ws with
+  | "ratedec" :: i :: rest =>
+    -- what `TypeChecker::visitLocation` stores for this invariant, with the decomposer as read from the current source
+    match parseWR rest with
+    | some (e, []) => out.putStrLn s!"RATEDEC {i} {(UtapModel.RateDecomp.stored UtapModel.RateDecompCfg.cfg e).line}"
+    | _ => out.putStrLn s!"RATEDEC {i} bad-op"
+    loop h out id ps
   | ["model", i] => loop h out i {}
   | ["end"] =>
     for l in report id ps.m do out.putStrLn l
